@@ -715,7 +715,14 @@ impl Constructor {
             (Constructor::Bool(b1), Constructor::Bool(b2)) => b1 == b2,
             (Constructor::Variant(..), Constructor::Variant(..)) => self == other,
             (Constructor::Int(i1), Constructor::Int(i2)) => i1 == i2,
-            (Constructor::Float(f1), Constructor::Float(f2)) => f1 == f2,
+            // float literals denote values, not spellings: `1.0` and `1.00` are the same case
+            // (same total order as the VM's float equality)
+            (Constructor::Float(f1), Constructor::Float(f2)) => {
+                match (f1.parse::<f64>(), f2.parse::<f64>()) {
+                    (Ok(a), Ok(b)) => a.total_cmp(&b).is_eq(),
+                    _ => f1 == f2,
+                }
+            }
             (Constructor::String(s1), Constructor::String(s2)) => s1 == s2,
             (Constructor::Product, Constructor::Product) => true,
             _ => panic!(
